@@ -1,9 +1,10 @@
 """C03 search worker: expands wikitext with the REAL Expander of the snapshot (PYTHONPATH is set by core.run_impl).
 
-stdin : JSON lines {"id", "text", "lang", "db": {name: text}, "pagename"}   (or {"id", "introspect": true})
+stdin : JSON lines {"id", "text", "lang", "db": {name: text}, "pagename"[, "limit": recursion limit, "budget": max
+        number of template-call dispatches, "cpu_limit": seconds]}   (or {"id", "introspect": true})
 stdout: one JSON line per request:
-        {"id", "outcome": "ok"|"exc"|"nonstr"|"timeout", "exc": "Type: msg"[:200], "cpu": process-time seconds,
-         "outlen": len(result), "out": first 120 chars}
+        {"id", "outcome": "ok"|"exc"|"nonstr"|"timeout"|"budget", "exc": "Type: msg"[:200], "cpu": process-time seconds,
+         "outlen": len(result), "out": first 120 chars, "dispatches": number of expander.resolver(..) calls}
 Each call is guarded by a virtual-time (CPU) interval timer plus a wall-clock backstop.  Everything the library
 prints goes to /dev/null; the protocol uses a private copy of the original stdout."""
 import inspect
@@ -51,6 +52,34 @@ WALL_LIMIT = float(os.environ.get("C03_WALL_LIMIT", "60"))
 
 class _Timeout(BaseException):
     pass
+
+
+class _Budget(BaseException):
+    """more template-call dispatches than the request allows (BaseException: no `except Exception` may hide it)"""
+
+
+class _CountingResolver:
+    """stands in for Expander.resolver (an instance attribute set by Expander.__init__): every Template node calls
+    expander.resolver(name, args) exactly once (nodes.pyx Template._flatten), so the number of calls is a
+    deterministic measure of the work done by one expansion, independent of the machine's load"""
+
+    def __init__(self, inner, budget):
+        self.__dict__["_inner"] = inner
+        self.__dict__["calls"] = 0
+        self.__dict__["budget"] = budget
+
+    def __call__(self, *a, **kw):
+        d = self.__dict__
+        d["calls"] += 1
+        if d["budget"] is not None and d["calls"] > d["budget"]:
+            raise _Budget()
+        return d["_inner"](*a, **kw)
+
+    def __getattr__(self, k):
+        return getattr(self.__dict__["_inner"], k)
+
+    def __setattr__(self, k, v):
+        setattr(self.__dict__["_inner"], k, v)
 
 
 def _on_alarm(signum, frame):
@@ -117,11 +146,19 @@ def run_one(req):
     d.siteinfo = get_siteinfo(req.get("lang") or "en")
     res = {"id": req["id"]}
     t0 = time.process_time()
-    signal.setitimer(signal.ITIMER_VIRTUAL, CPU_LIMIT)
+    cpu_limit = float(req.get("cpu_limit") or CPU_LIMIT)
+    signal.setitimer(signal.ITIMER_VIRTUAL, cpu_limit)
     signal.setitimer(signal.ITIMER_REAL, WALL_LIMIT)
+    counter = None
     try:
         try:
-            out = Expander(req["text"], pagename=req.get("pagename", "thispage"), wikidb=d).expandTemplates()
+            kw = {}
+            if req.get("limit") is not None:
+                kw["recursion_limit"] = int(req["limit"])
+            exp = Expander(req["text"], pagename=req.get("pagename", "thispage"), wikidb=d, **kw)
+            counter = _CountingResolver(exp.resolver, req.get("budget"))
+            exp.resolver = counter
+            out = exp.expandTemplates()
         finally:
             signal.setitimer(signal.ITIMER_VIRTUAL, 0)
             signal.setitimer(signal.ITIMER_REAL, 0)
@@ -130,11 +167,14 @@ def run_one(req):
         else:
             res.update(outcome="nonstr", exc="returned %s" % type(out).__name__, outlen=0)
     except _Timeout:
-        res.update(outcome="timeout", exc="no result after %.0fs CPU / %.0fs wall" % (CPU_LIMIT, WALL_LIMIT), outlen=0)
+        res.update(outcome="timeout", exc="no result after %.0fs CPU / %.0fs wall" % (cpu_limit, WALL_LIMIT), outlen=0)
+    except _Budget:
+        res.update(outcome="budget", exc="more than %s template-call dispatches" % req.get("budget"), outlen=0)
     except BaseException as e:  # noqa: BLE001 - the monitor wants every escape
         msg = "%s: %s" % (type(e).__name__, e)
         res.update(outcome="exc", exc=msg[:200], outlen=0)
     res["cpu"] = round(time.process_time() - t0, 5)
+    res["dispatches"] = counter.__dict__["calls"] if counter is not None else 0
     return res
 
 
